@@ -129,7 +129,7 @@ def _bins(rng, contigs, nmax):
     return recs
 
 
-def _reads(rng, contigs, nreads, indels, edges):
+def _reads(rng, contigs, nreads, indels, edges, noseq=False):
     """reads placed uniformly, on bin edges, and around contig ends; returned coordinate-sorted"""
     out = []
     for tid, (name, L) in enumerate(contigs):
@@ -147,7 +147,10 @@ def _reads(rng, contigs, nreads, indels, edges):
             else:
                 pos = L - rng.choice([rl, rl - 1, rl + 1, rl // 2, 1])
             pos = max(0, pos)
-            out.append([tid, pos, cg, _flag(rng), _mapq(rng)])
+            rd = [tid, pos, cg, _flag(rng), _mapq(rng)]
+            if noseq and rng.random() < 0.06:
+                rd.append(1)  # record stored without SEQ/QUAL ('*'), as aligners write secondary hits
+            out.append(rd)
     out.sort(key=lambda r: (r[0], r[1]))
     return out
 
@@ -164,6 +167,8 @@ def _bed_lines(rng, recs, ncol, odd_names, comments):
             rest += [str(rng.randint(0, 1000)), rng.choice("+-.")]
         if ncol >= 8:
             rest += [str(s), str(e)]
+        if ncol >= 12:
+            rest += ["0", "1", "%d," % (e - s), "0,"]
         lines.append([c, s, e, rest])
     if comments:
         for _ in range(rng.randint(1, 4)):
@@ -175,6 +180,8 @@ def _bed_lines(rng, recs, ncol, odd_names, comments):
 def _runs(rng, nrec, big=False, procs_cycle=0):
     sizes = [1, 2, 3, 5, 7, max(1, nrec - 1), max(1, nrec), nrec + 1]
     ps = [2, 3, 16]
+    if rng.random() < 0.25:  # any count within 1..16, not only the three usual ones
+        ps[rng.randrange(2)] = rng.randint(4, 15)
     order = lambda: [rng.randint(0, 9) for _ in range(rng.randint(0, 12))]
     runs = [["pileup", 1, 5000, []]]
     p1 = ps[procs_cycle % 3]
@@ -187,14 +194,72 @@ def _runs(rng, nrec, big=False, procs_cycle=0):
     return runs
 
 
-def _case(rng, k, nreads=None, nbins=None, tag=None, comments=None, odd=None):
+INDEX_MODES = ["bam.bai", "bam.bai", "bam.bai", "bai", "none", "stale", "stale-bai"]
+BED_NAMES = ["r.bed", "r.bed", "r.bed", "targets.txt", "baits", "my.antitarget.bed", "S1.targets.BED"]
+CALL_STYLES = ["kw", "kw", "pos", "implicit"]
+
+
+def _argv(rng, algo, q, procs, fasta):
+    """one `cnvkit.py coverage` command line (placeholders {bam} {bed} {fa} {out}): short and long option names,
+    `--opt=value`, options before / between / after the two positionals, values equal to the parser's defaults
+    left out most of the time, `-o` left out now and then (default output name in the working directory)"""
+    def opt(short, long, val):
+        r = rng.random()
+        return [short, val] if r < 0.45 else [long, val] if r < 0.8 else [long + "=" + val]
+    opts = []
+    if algo == "count":
+        opts.append([rng.choice(["-c", "--count"])])
+    if q != 0 or rng.random() < 0.25:
+        opts.append(opt("-q", "--min-mapq", str(q)))
+    if procs != 1 or rng.random() < 0.25:
+        opts.append(opt("-p", "--processes", str(procs)))
+    if fasta:
+        opts.append(opt("-f", "--fasta", "{fa}"))
+    if rng.random() < 0.75:
+        opts.append(opt("-o", "--output", "{out}"))
+    rng.shuffle(opts)
+    a, b = sorted([rng.randint(0, len(opts)), rng.randint(0, len(opts))])
+    flat = lambda xs: [w for o in xs for w in o]
+    # `-c` takes no value: it may sit directly before a positional; every other option here carries its value
+    return ["coverage"] + flat(opts[:a]) + ["{bam}"] + flat(opts[a:b]) + ["{bed}"] + flat(opts[b:])
+
+
+def _variant(rng, far=False, cli=None):
+    """the representation / call-path cell of a case (none of it changes the expected table)"""
+    x = {"index": rng.choice(INDEX_MODES),  # which index files sit next to the BAM when do_coverage is entered
+         "fasta": (not far) and rng.random() < 0.25,  # the fasta= / -f argument (a FASTA of the contigs)
+         "unplaced": rng.choice([0, 0, 0, 1, 7]),  # unmapped reads without a position at the end of the BAM
+         "nonl": rng.random() < 0.15,  # last line of the regions file without a line end
+         "bedname": rng.choice(BED_NAMES),
+         "call": rng.choice(CALL_STYLES)}  # keywords / positionals / defaults left implicit
+    if (rng.random() < 0.18) if cli is None else cli:
+        x["cli"] = True
+    return x
+
+
+def _with_cli(rng, case):
+    i = case["in"]
+    if i.get("cli"):
+        i["argv"] = [_argv(rng, algo, i["q"], procs, i.get("fasta")) for algo, procs, _s, _o in i["runs"]]
+        case["tag"] = "cli-" + case["tag"]
+    return case
+
+
+def _case(rng, k, nreads=None, nbins=None, tag=None, comments=None, odd=None, cli=None):
     names = rng.choice(CONTIG_SETS)[: rng.randint(1, 3)]
     contigs = [[n, rng.randint(200, 3000)] for n in names]
     indels = rng.random() < 0.4
     recs = _bins(rng, contigs, nbins or rng.choice([3, 10, 30, 60]))
     edges = [(c, x) for (c, s, e) in recs for x in (s, e)]
     n = nreads if nreads is not None else rng.choice([0, 1, 5, 40, 150, 300, 600])
-    reads = _reads(rng, contigs, n, indels, edges)
+    reads = _reads(rng, contigs, n, indels, edges, noseq=rng.random() < 0.3)
+    far = rng.random() < 0.1
+    if far:  # genome-scale coordinates: the same layout moved far down the contigs
+        off = dict((nm, rng.choice([10 ** 6, 123456789, 2 ** 27 + 5, 248000000])) for nm in names)
+        contigs = [[nm, L + off[nm]] for nm, L in contigs]
+        recs = [[c, s + off[c], e + off[c]] for c, s, e in recs]
+        for r in reads:
+            r[1] += off[names[r[0]]]
     order = rng.random()
     if order < 0.25:
         rng.shuffle(recs)
@@ -202,15 +267,16 @@ def _case(rng, k, nreads=None, nbins=None, tag=None, comments=None, odd=None):
         cs = names[:]
         rng.shuffle(cs)
         recs.sort(key=lambda r: (cs.index(r[0]), r[1], r[2]))
-    ncol = rng.choice([3, 4, 4, 6, 8])
+    ncol = rng.choice([3, 4, 4, 6, 8, 12])
     comments = (rng.random() < 0.2) if comments is None else comments
     odd = (rng.random() < 0.1) if odd is None else odd
     bed = _bed_lines(rng, recs, ncol, odd, comments)
     q = rng.choice([0, 0, 1, 10, 11, 30, 31, 60, rng.randint(0, 61)])
     t = tag or ("indel" if indels else "plain") + (":comments" if comments else "") + (":oddnames" if odd and ncol >= 4 else "") \
-        + ":col%d" % ncol
-    return {"op": "cov", "tag": t, "in": {"contigs": contigs, "reads": reads, "bed": bed, "q": q,
-                                           "runs": _runs(rng, len(recs), procs_cycle=k)}}
+        + ":col%d" % ncol + (":far" if far else "")
+    inp = {"contigs": contigs, "reads": reads, "bed": bed, "q": q, "runs": _runs(rng, len(recs), procs_cycle=k)}
+    inp.update(_variant(rng, far, cli))
+    return _with_cli(rng, {"op": "cov", "tag": t, "in": inp})
 
 
 def _small_scope():
@@ -241,10 +307,23 @@ def _flag_case():
         reads.append([0, pos, [[M, 40]], 0, mq])
         bed.append(["chr1", pos, pos + 40, ["q%d" % mq]])
         pos += 50
-    return [{"op": "cov", "tag": "flags-x-mapq", "in": {"contigs": [["chr1", pos + 100]], "reads": reads, "bed": bed,
-                                                       "q": q, "runs": [["pileup", 1, 5000, []], ["count", 1, 5000, []],
-                                                                        ["pileup", 3, 7, [3, 1, 2]], ["count", 2, 5000, [1, 0]]]}}
-            for q in (0, 30, 31)]
+    runs = [["pileup", 1, 5000, []], ["count", 1, 5000, []], ["pileup", 3, 7, [3, 1, 2]], ["count", 2, 5000, [1, 0]]]
+    cases = [{"op": "cov", "tag": "flags-x-mapq", "in": {"contigs": [["chr1", pos + 100]], "reads": reads, "bed": bed,
+                                                         "q": q, "runs": runs}} for q in (0, 30, 31)]
+    # the same through `cnvkit.py coverage`: -q left out (parser default) / short / long, -c / --count, -p N
+    for q, argv in ((0, [["coverage", "{bam}", "{bed}", "-o", "{out}"], ["coverage", "-c", "{bam}", "{bed}", "-o", "{out}"],
+                         ["coverage", "{bam}", "{bed}", "-p", "3", "-o", "{out}"],
+                         ["coverage", "{bam}", "{bed}", "--count", "--processes", "2", "--output", "{out}"]]),
+                    (30, [["coverage", "{bam}", "{bed}", "-q", "30", "-o", "{out}"],
+                          ["coverage", "{bam}", "{bed}", "-q", "30", "-c", "-o", "{out}"],
+                          ["coverage", "-p", "3", "-q", "30", "{bam}", "{bed}", "-o", "{out}"],
+                          ["coverage", "--min-mapq", "30", "-cp", "2", "{bam}", "{bed}", "-o", "{out}"]]),
+                    (31, [["coverage", "{bam}", "{bed}", "--min-mapq=31"], ["coverage", "{bam}", "-c", "{bed}", "-q31"],
+                          ["coverage", "{bam}", "{bed}", "-q", "31", "-p3"],
+                          ["coverage", "{bam}", "{bed}", "-q", "31", "-c", "-p", "2"]])):
+        cases.append({"op": "cov", "tag": "cli-flags-x-mapq", "in": {
+            "contigs": [["chr1", pos + 100]], "reads": reads, "bed": bed, "q": q, "runs": runs, "cli": True, "argv": argv}})
+    return cases
 
 
 def _chunk_case(rng, n=None, size=None, tag="chunks"):
@@ -296,6 +375,31 @@ def corpus():
         "contigs": [["chr1", 1000]], "reads": [[0, 10, [[M, 50]], 0, 60]], "bed": [], "q": 0,
         "runs": [["pileup", 1, 5000, []], ["pileup", 2, 1, []], ["count", 1, 5000, []]]}})
     c += _flag_case()
+    # call-path / representation cells, one witness each (reads of mapq 0 / 20 / 60, a duplicate, two contigs)
+    base = {"contigs": [["chr1", 1000], ["chr2", 500]],
+            "reads": [[0, 10, [[M, 50]], 0, 60], [0, 30, [[M, 50]], 0, 20], [0, 40, [[M, 50]], 1024, 60],
+                      [0, 70, [[M, 40]], 0, 0], [0, 75, [[M, 40]], 256, 60, 1], [1, 5, [[S, 5], [M, 40]], 16, 60], [1, 460, [[M, 40]], 0, 9]],
+            "bed": [["chr1", 0, 100, ["a"]], ["chr1", 20, 40, ["b"]], ["chr2", 0, 50, ["c"]], ["chr1", 100, 100, ["z"]],
+                    ["chr2", 450, 600, ["d"]]],
+            "runs": [["pileup", 1, 5000, []], ["count", 1, 5000, []], ["pileup", 2, 2, [1, 0]], ["count", 3, 5000, [1, 0]]]}
+    for extra in ({"index": "none"}, {"index": "bai"}, {"index": "stale"}, {"index": "stale-bai"},
+                  {"fasta": True}, {"fasta": True, "q": 30}, {"fasta": True, "q": 10, "index": "none"},
+                  {"call": "implicit"}, {"call": "pos", "q": 1}, {"call": "implicit", "q": 21, "fasta": True},
+                  {"unplaced": 3}, {"nonl": True}, {"bedname": "baits"}, {"bedname": "my.antitarget.bed", "nonl": True}):
+        c.append({"op": "cov", "tag": "corpus-variant", "in": dict(base, **dict({"q": 0}, **extra))})
+    # the same through the command line, every option in both spellings, defaults left to the parser
+    for q, fa, argv in (
+            (0, False, [["coverage", "{bam}", "{bed}"], ["coverage", "{bam}", "{bed}", "-c"],
+                        ["coverage", "{bam}", "{bed}", "-p", "2"], ["coverage", "{bam}", "{bed}", "-c", "-p", "3"]]),
+            (1, False, [["coverage", "-q", "1", "{bam}", "{bed}", "-o", "{out}"], ["coverage", "-q", "1", "--count", "{bam}", "{bed}", "-o", "{out}"],
+                        ["coverage", "{bam}", "-q", "1", "--processes", "2", "{bed}", "-o", "{out}"],
+                        ["coverage", "{bam}", "{bed}", "-o", "{out}", "-c", "--processes=3", "--min-mapq=1"]]),
+            (21, True, [["coverage", "{bam}", "{bed}", "-f", "{fa}", "-q", "21", "--output", "{out}"],
+                        ["coverage", "{bam}", "{bed}", "--fasta", "{fa}", "-q", "21", "-c", "--output={out}"],
+                        ["coverage", "--fasta={fa}", "{bam}", "{bed}", "-q", "21", "-p", "2", "-o", "{out}"],
+                        ["coverage", "-c", "-f", "{fa}", "{bam}", "{bed}", "-q", "21", "-p", "3", "-o", "{out}"]])):
+        c.append({"op": "cov", "tag": "cli-corpus-variant", "in": dict(base, q=q, fasta=fa, cli=True, argv=argv,
+                                                                      index="none" if q == 1 else "bam.bai")})
     c += [{"op": "chunks", "tag": "corpus-chunks", "in": {"lines": l, "size": s}} for l, s in (
         ([], 3), (["#a\n"], 1), (["a\n", "b\n", "c\n"], 3), (["a\n", "b\n", "c\n", "d\n"], 3),
         (["#x\n", "a\n", "#y\n", "b\n", "#z\n"], 1), (["a\n", "b\n", "#tail\n"], 2), (["a\n", "b"], 5))]
@@ -317,13 +421,16 @@ def gen_cases(rng, tier):
         c = _case(rng, k, nreads=nr, nbins=60, tag="large-bam")
         cases.append(c)
     if tier != "search":
-        for nb in ({"quick": [5003], "thorough": [4999, 5000, 5001, 10001]}[tier]):
+        # (lines in the regions file, through the command line?)
+        for nb, cli in ({"quick": [(5003, False), (5001, True)],
+                         "thorough": [(4999, False), (5000, True), (5001, False), (10001, True), (10000, False)]}[tier]):
             contigs = [["chr1", 60000], ["chr2", 30000]]
             recs = [["chr1" if i % 3 else "chr2", (i * 7) % 29000, (i * 7) % 29000 + (i % 13), ["b%d" % i]] for i in range(nb)]
             reads = _reads(rng, contigs, 300, False, [("chr1", 100), ("chr2", 7000)])
-            cases.append({"op": "cov", "tag": "default-chunk-size", "in": {
-                "contigs": contigs, "reads": reads, "bed": recs, "q": 10,
-                "runs": [["pileup", 1, 5000, []], ["pileup", 3, 5000, [2, 0, 1]], ["count", 1, 5000, []]]}})
+            inp = {"contigs": contigs, "reads": reads, "bed": recs, "q": 10,
+                   "runs": [["pileup", 1, 5000, []], ["pileup", 3, 5000, [2, 0, 1]], ["count", 1, 5000, []]]}
+            inp.update(_variant(rng, cli=cli))
+            cases.append(_with_cli(rng, {"op": "cov", "tag": "default-chunk-size", "in": inp}))
     m = {"quick": 1500, "thorough": 10000, "search": 300}[tier]
     cases += [_chunk_case(rng) for _ in range(m)]
     if tier != "search":
@@ -336,26 +443,57 @@ def gen_cases(rng, tier):
 # the real code
 
 
-def _write_bam(path, contigs, reads):
+def _write_bam(path, contigs, reads, unplaced=0):
     import pysam
     hdr = {"HD": {"VN": "1.0", "SO": "coordinate"}, "SQ": [{"SN": n, "LN": l} for n, l in contigs]}
     with pysam.AlignmentFile(path, "wb", header=hdr) as f:
-        for i, (tid, pos, cigar, flag, mq) in enumerate(reads):
+        for i, (tid, pos, cigar, flag, mq, *more) in enumerate(reads):
             a = pysam.AlignedSegment()
             a.query_name = "r%d" % i
-            a.cigartuples = [tuple(c) for c in cigar]
             ql = sum(l for op, l in cigar if op in (M, I, S, EQ, X))
-            a.query_sequence = "A" * ql
+            if not (more and more[0]):  # otherwise: a record stored without SEQ / QUAL
+                a.query_sequence = "A" * ql
+                a.query_qualities = pysam.qualitystring_to_array("I" * ql)
+            a.cigartuples = [tuple(c) for c in cigar]
             a.flag = flag
             a.reference_id = tid
             a.reference_start = pos
             a.mapping_quality = mq
-            a.query_qualities = pysam.qualitystring_to_array("I" * ql)
             if flag & 1:
                 a.next_reference_id = tid
                 a.next_reference_start = pos
             f.write(a)
-    pysam.index(path)
+        for i in range(unplaced):  # unmapped reads without a position, where sorted BAMs keep them: at the end
+            a = pysam.AlignedSegment()
+            a.query_name = "u%d" % i
+            a.query_sequence = "C" * 40
+            a.query_qualities = pysam.qualitystring_to_array("I" * 40)
+            a.flag = (4, 77, 141)[i % 3]
+            a.reference_id = -1
+            a.reference_start = -1
+            a.mapping_quality = 0
+            f.write(a)
+
+
+def _set_index(bam, mode, decoy):
+    """the index files next to `bam` as `mode` names them; `decoy` = a valid index of ANOTHER (empty) BAM"""
+    import pysam
+    bai1, bai2 = bam + ".bai", bam[:-1] + "i"
+    for path in (bai1, bai2):
+        if os.path.exists(path):
+            os.unlink(path)
+    if mode == "none":
+        return
+    if mode in ("bam.bai", "bai"):
+        pysam.index(bam)
+        if mode == "bai":
+            os.rename(bai1, bai2)
+        return
+    path = bai1 if mode == "stale" else bai2  # "stale" / "stale-bai": older than the BAM, describing other content
+    with open(path, "wb") as f:
+        f.write(decoy)
+    t = os.stat(bam).st_mtime - 3600
+    os.utime(path, (t, t))
 
 
 def _bed_text(bed):
@@ -379,12 +517,94 @@ def _rows(cnarr):
     return {"rows": rows}
 
 
+def _file_vs_table(path, cn):
+    """the written .cnn read back against the table the command handed to the writer (files carry 6 digits);
+    returns a description of the first difference or None"""
+    import pandas as pd
+    if len(cn) == 0:
+        return None if os.path.exists(path) else "no file written"
+    # plain pandas, names as text: the rows in the order they were written (cnvkit's own readers re-sort, and
+    # reading numeric-looking names back is C08's subject)
+    back = pd.read_csv(path, sep="\t", dtype={"chromosome": str, "gene": str}, keep_default_na=False)
+    if len(back) != len(cn):
+        return "%d rows in the file, %d in the table" % (len(back), len(cn))
+    for x, y in zip(back.itertuples(index=False), cn.data.itertuples(index=False)):
+        if (str(x.chromosome), int(x.start), int(x.end)) != (str(y.chromosome), int(y.start), int(y.end)):
+            return "file row %r, table row %r" % (tuple(x)[:3], tuple(y)[:3])
+        if str(x.gene) != str(y.gene):
+            return "file name %r, table name %r" % (x.gene, y.gene)
+        for u, v in ((x.depth, y.depth), (x.log2, y.log2)):
+            if not abs(float(u) - float(v)) <= 1e-5 * max(1.0, abs(float(v))):
+                return "file value %r, table value %r at %r" % (u, v, tuple(y)[:3])
+    return None
+
+
+def _cov_cli(argv, paths, outdir):
+    """`cnvkit.py coverage ...` in-process (parse_args + args.func, what the script does); returns the table the
+    command hands to the writer and a description of what is wrong with the written file, if anything"""
+    import glob
+    import logging
+    from cnvlib import commands
+    from skgenome import tabio
+    os.makedirs(outdir)
+    paths = dict(paths, out=os.path.join(outdir, "o.cnn"))
+    explicit_out = any("{out}" in w for w in argv)
+    for key, val in paths.items():
+        argv = [w.replace("{%s}" % key, val) for w in argv]
+    captured = []
+
+    class _Tab:
+        def __getattr__(self, name):
+            return getattr(tabio, name)
+
+        def write(self, garr, outfname=None, *a, **k):
+            captured.append(garr)
+            return tabio.write(garr, outfname, *a, **k)
+    saved, cwd = commands.tabio, os.getcwd()
+    commands.tabio = _Tab()
+    os.chdir(outdir)  # without -o the file goes to the working directory
+    logging.disable(logging.CRITICAL)
+    try:
+        args = commands.parse_args(argv)
+        args.func(args)
+    finally:
+        logging.disable(logging.NOTSET)
+        os.chdir(cwd)
+        commands.tabio = saved
+    files = sorted(glob.glob(os.path.join(outdir, "*")))
+    if len(captured) != 1:
+        raise AssertionError("cnvkit.py coverage handed %d tables to the writer" % len(captured))
+    if len(files) != 1:
+        return captured[0], "%d files written: %s" % (len(files), [os.path.basename(f) for f in files])
+    if explicit_out and files[0] != paths["out"]:
+        return captured[0], "written to %s, not to the -o path" % os.path.basename(files[0])
+    if not explicit_out and not (os.path.basename(files[0]).startswith("s.") and files[0].endswith(".cnn")):
+        return captured[0], "default output name %s does not start with the BAM's base name" % os.path.basename(files[0])
+    return captured[0], _file_vs_table(files[0], captured[0])
+
+
+def _api(coverage, bed, bam, algo, q, procs, fasta, style):
+    """do_coverage with keywords (as before), positionally (as commands.py does), or with every argument that
+    equals its documented default left out"""
+    by_count = algo == "count"
+    if style == "pos":
+        return coverage.do_coverage(bed, bam, by_count, q, procs, fasta) if fasta else \
+            coverage.do_coverage(bed, bam, by_count, q, procs)
+    kw = {"by_count": by_count, "min_mapq": q, "processes": procs}
+    if style == "implicit":
+        kw = {k: v for k, v in kw.items() if v != {"by_count": False, "min_mapq": 0, "processes": 1}[k]}
+    if fasta:
+        kw["fasta"] = fasta
+    return coverage.do_coverage(bed, bam, **kw)
+
+
 def run_impl(case):
     from cnvlib import coverage, parallel
     i = case["in"]
     d = tempfile.mkdtemp(dir="/var/tmp", prefix="c09-")
     old_tmp = tempfile.tempdir
     tempfile.tempdir = d  # to_chunks / pysam put their temporary files here, not under /tmp
+    verbosity = None
     try:
         if case["op"] == "chunks":
             path = os.path.join(d, "in.bed")
@@ -396,25 +616,52 @@ def run_impl(case):
                     out.append(f.readlines())
                 parallel.rm(name)
             return out
+        import pysam
         bam = os.path.join(d, "s.bam")
-        _write_bam(bam, i["contigs"], i["reads"])
-        bed = os.path.join(d, "r.bed")
+        mode = i.get("index", "bam.bai")
+        decoy = None
+        if mode.startswith("stale"):  # index of a BAM with the same header and no reads
+            verbosity = pysam.set_verbosity(0)  # htslib warns on stderr each time it meets the old index
+            _write_bam(bam, i["contigs"], [])
+            pysam.index(bam)
+            with open(bam + ".bai", "rb") as f:
+                decoy = f.read()
+            os.unlink(bam + ".bai")
+        _write_bam(bam, i["contigs"], i["reads"], i.get("unplaced", 0))
+        bed = os.path.join(d, i.get("bedname", "r.bed"))
+        text = _bed_text(i["bed"])
         with open(bed, "w") as f:
-            f.write(_bed_text(i["bed"]))
+            f.write(text[:-1] if i.get("nonl") and text.endswith("\n") else text)
+        fasta = None
+        if i.get("fasta"):
+            fasta = os.path.join(d, "ref.fa")
+            with open(fasta, "w") as f:
+                for name, ln in i["contigs"]:
+                    f.write(">%s\n" % name + "".join("ACGT"[(k // 60) % 4] * min(60, ln - k) + "\n" for k in range(0, ln, 60)))
         res = []
-        for algo, procs, size, _order in i["runs"]:
+        for k, (algo, procs, size, _order) in enumerate(i["runs"]):
+            _set_index(bam, mode, decoy)
             # the real generator with a non-default chunk_size (5000 = the default: left untouched)
             coverage.to_chunks = parallel.to_chunks if size == 5000 else functools.partial(parallel.to_chunks, chunk_size=size)
+            bad = None
             try:
-                cn = coverage.do_coverage(bed, bam, by_count=(algo == "count"), min_mapq=i["q"], processes=procs)
+                if i.get("cli"):
+                    cn, bad = _cov_cli(i["argv"][k], {"bam": bam, "bed": bed, "fa": fasta or ""}, os.path.join(d, "out%d" % k))
+                else:
+                    cn = _api(coverage, bed, bam, algo, i["q"], procs, fasta, i.get("call", "kw"))
             except Exception as e:  # noqa: BLE001 -- the model says whether this refusal is expected
                 res.append({"err": type(e).__name__, "msg": str(e)[:200]})
                 continue
             finally:
                 coverage.to_chunks = parallel.to_chunks
-            res.append(_rows(cn))
+            r = _rows(cn)
+            if bad:
+                r["file"] = bad
+            res.append(r)
         return res
     finally:
+        if verbosity is not None:
+            pysam.set_verbosity(verbosity)
         tempfile.tempdir = old_tmp
         shutil.rmtree(d, ignore_errors=True)
 
@@ -461,6 +708,8 @@ def judge(case, impl, resp):
         if "nonfinite" in r:
             spec.append("depth_and_log2_are_finite_numbers")
             continue
+        if r.get("file"):  # command-line runs: the .cnn on disk is not the table the command computed
+            spec.append("cli_written_file_is_the_table")
         mr, ir = m["rows"], r["rows"]
         if len(mr) != len(ir):
             dis.append(f"{what}: {len(mr)} model rows, {len(ir)} implementation rows")
@@ -507,7 +756,10 @@ def shrink(case):
     reads, bed, runs = i["reads"], i["bed"], i["runs"]
     if len(runs) > 1:
         for k in range(len(runs)):
-            yield mk(runs=runs[:k] + runs[k + 1:])
+            if i.get("cli"):  # each run has its command line
+                yield mk(runs=runs[:k] + runs[k + 1:], argv=i["argv"][:k] + i["argv"][k + 1:])
+            else:
+                yield mk(runs=runs[:k] + runs[k + 1:])
     for part in (reads[: len(reads) // 2], reads[len(reads) // 2:]):
         if len(part) < len(reads):
             yield mk(reads=part)
